@@ -152,8 +152,22 @@ def index_terms(expr, cvar, rows, what):
     return seen
 
 
+# kinds of the four additions `row + block_size` met while parsing ("plain" | "saturating"); all four must agree
+ADD_KINDS = []
+
+ROW_STEP = (r"(?:(?P<%s>self\.row\+=self\.block_size;)"
+            r"|self\.row=self\.row\.saturating_add\(self\.block_size\);)")
+
+
 def end_expr(expr, rows, what):
     e = unparen(expr)
+    sat = r"self\.row\.saturating_add\(self\.block_size\)"
+    if re.search(sat, e):
+        ADD_KINDS.append("saturating")
+        e = re.sub(sat, "(self.row+self.block_size)", e)
+        e = unparen(e.replace("((self.row+self.block_size))", "(self.row+self.block_size)"))
+    else:
+        ADD_KINDS.append("plain")
     plus = r"(?:self\.row\+self\.block_size|self\.block_size\+self\.row)"
     if re.fullmatch(r"\(%s\)\.min\(%s\)" % (plus, re.escape(rows)), e) or \
        re.fullmatch(r"%s\.min\(\(?%s\)?\)" % (re.escape(rows), plus), e) or \
@@ -184,7 +198,7 @@ def two_lets(text, what):
 def parse_next(body):
     b = squash(body)
     what = "next()"
-    m = re.fullmatch(
+    m = re.fullmatch((
         r"let seq=self\.seq\.as_ref\(\);"
         r"let (?P<t>%(ID)s)=self\.dm\.scale\(self\.threshold\);"
         r"(?P<lets>let .*?;let .*?;)"
@@ -198,12 +212,13 @@ def parse_next(body):
         r"let (?P<score>%(ID)s)=self\.pssm\.as_ref\(\)\.score_position\(%(SEQARG)s,(?P=index)\);"
         r"if ?(?P<thr>[^{]+)\{self\.hits\.push\(Hit::new\((?P=index),(?P=score)\)\);\}"
         r"\}\}"
-        r"self\.row\+=self\.block_size;"
+        + ROW_STEP % "nstep" +
         r"\}"
-        r"self\.hits\.(?P<pop>pop\(\)|remove\(0\))" % dict(ID=ID, SEQARG=SEQARG), b)
+        r"self\.hits\.(?P<pop>pop\(\)|remove\(0\))") % dict(ID=ID, SEQARG=SEQARG), b)
     if not m:
         raise ParseError("next(): cannot parse the body (statement skeleton changed): `%s...`" % b[:120])
     g = m.groupdict()
+    ADD_KINDS.append("plain" if g["nstep"] else "saturating")
     rows, maxidx = two_lets(g["lets"], what)
     conj = [unparen(x) for x in split_top(unparen(g["cond"]), "&&")]
     hits_empty = False
@@ -235,7 +250,7 @@ def parse_next(body):
 def parse_max(body):
     b = squash(body)
     what = "max()"
-    m = re.fullmatch(
+    m = re.fullmatch((
         r"let seq=self\.seq\.as_ref\(\);"
         r"let mut (?P<best>%(ID)s)=std::mem::take\(&mut self\.hits\)\.into_iter\(\)"
         r"\.filter\(\|(?P<fh>%(ID)s)\|(?P<filter>[^)]+)\)"
@@ -262,12 +277,13 @@ def parse_max(body):
         r"(?P=best)=Some\(Hit::new\((?P=index),(?P=score)\)\);"
         r"\}"
         r"\}\}\}"
-        r"self\.row\+=self\.block_size;"
+        + ROW_STEP % "mstep" +
         r"\}"
-        r"(?P=best)" % dict(ID=ID, SEQARG=SEQARG), b)
+        r"(?P=best)") % dict(ID=ID, SEQARG=SEQARG), b)
     if not m:
         raise ParseError("max(): cannot parse the body (statement skeleton changed): `%s...`" % b[:120])
     g = m.groupdict()
+    ADD_KINDS.append("plain" if g["mstep"] else "saturating")
     rows, maxidx = two_lets(g["lets"], what)
     sh = {}
     sh["m_filter_cmp"] = comparison(g["filter"], g["fh"] + ".score", "self.threshold", "max() filter of the buffered hits")
@@ -396,12 +412,17 @@ def read_all(src):
     if not nx or not mx:
         raise ParseError("fn next(&mut self) / fn max(mut self) not found in impl Iterator for Scanner")
     shape = {}
+    del ADD_KINDS[:]
     shape.update(parse_next(block_at(impl, nx.end())))
     shape.update(parse_max(block_at(impl, mx.end())))
+    if len(ADD_KINDS) != 4 or len(set(ADD_KINDS)) != 1:
+        raise ParseError("the four additions `row + block_size` of next() / max() are not all of the same kind "
+                         "(plain `+` or `saturating_add`): %s" % ",".join(ADD_KINDS))
     nw = re.search(r"\bpub\s+fn\s+new\s*\(\s*pssm\s*:\s*M\s*,\s*seq\s*:\s*S\s*\)\s*->\s*Self\s*", src)
     if not nw:
         raise ParseError("pub fn new(pssm: M, seq: S) -> Self not found")
     consts = parse_new(block_at(src, nw.end()))
+    consts["row_add_saturating"] = (ADD_KINDS[0] == "saturating")
     return shape, consts
 
 
@@ -432,6 +453,10 @@ def render(shape, consts):
         "Definition gen_default_block_size : nat := %d." % consts["block_size"],
         "Definition gen_init_row : nat := %d." % consts["row"],
         "Definition gen_default_threshold_bits : Z := %d%%Z." % consts["thr_bits"],
+        "",
+        "(* the four additions `row + block_size` of next() / max(): plain `+` (overflow: panic or wrap, by build",
+        "   profile) or `saturating_add` (the repair proposed for finding F-scan-ovf); ScanWord.v models both *)",
+        "Definition gen_row_add_saturating : bool := %s." % ("true" if consts.get("row_add_saturating") else "false"),
         "",
     ]
     return "\n".join(lines)
